@@ -1,8 +1,20 @@
-(** Property C06 -- scrolling (PARTIAL: buffer level; see DESIGN.md).
+(** Property C06 -- scrolling stays in its region and feeds the scrollback in order.
     Only pinned statements, closed by [exact], with their assumptions printed. *)
-From Avt Require Import Spec.Screen Proofs.Inv Proofs.BufScroll.
+From Avt Require Import Oracles.Step Proofs.Inv Proofs.VisEq Proofs.BufScroll Proofs.SpecScroll.
 
-(** Buffer::scroll_up (all three code paths) equals the list-level specification: the range shifts by min n (z-a), vacated rows are blank in the pen, rows outside the range are unchanged, and exactly the rows pushed off a range starting at row 0 are appended to the scrollback, in order *)
+(** LF/IND/NEL on the bottom margin, RI on the top margin, SU, SD, IL, DL: from every state satisfying the invariant the control function succeeds and yields exactly the specified screen, scrollback, cursor and modes (all fields except dirty flags / lazy-trim flag). *)
+Theorem C06_scroll : forall t f e, TInv t -> spec_scroll t f = Some e -> exists t', execute t f = Ok t' /\ vis_norm e = vis_norm t'.
+Proof. exact C06_scroll. Qed.
+Check C06_scroll : forall t f e, TInv t -> spec_scroll t f = Some e -> exists t', execute t f = Ok t' /\ vis_norm e = vis_norm t'.
+Print Assumptions C06_scroll.
+
+(** the executable statement evaluated on the implementation *)
+Theorem C06_statement : forall t f t', TInv t -> execute t f = Ok t' -> match spec_scroll t f with Some e => visible_eqb e t' = true | None => True end.
+Proof. exact C06_scroll_step. Qed.
+Check C06_statement : forall t f t', TInv t -> execute t f = Ok t' -> match spec_scroll t f with Some e => visible_eqb e t' = true | None => True end.
+Print Assumptions C06_statement.
+
+(** Buffer::scroll_up (all three code paths) equals the list-level specification, including exactly which rows enter the scrollback and in which order *)
 Theorem C06_scroll_up : forall b a z n p, BGeom b -> a < z -> z <= brows b -> exists b', buf_scroll_up b a z n p = Ok b' /\ lines b' = firstn (sb_len b) (lines b) ++ snd (spec_scroll_up a z n p (bcols b) (view b)) ++ fst (spec_scroll_up a z n p (bcols b) (view b)) /\ bcols b' = bcols b /\ brows b' = brows b /\ blimit b' = blimit b /\ trim_needed b' = true /\ BGeom b'.
 Proof. exact buf_scroll_up_spec. Qed.
 Check C06_scroll_up : forall b a z n p, BGeom b -> a < z -> z <= brows b -> exists b', buf_scroll_up b a z n p = Ok b' /\ lines b' = firstn (sb_len b) (lines b) ++ snd (spec_scroll_up a z n p (bcols b) (view b)) ++ fst (spec_scroll_up a z n p (bcols b) (view b)) /\ bcols b' = bcols b /\ brows b' = brows b /\ blimit b' = blimit b /\ trim_needed b' = true /\ BGeom b'.
